@@ -112,6 +112,46 @@ pub fn compare(pre: &Ledger, ix: &Ix, fail_cpi: Option<usize>, idx: usize, cov: 
     cov.sample(json!({"ix": c.name(), "region": region, "dynamic_arrays": dyn_arrays, "accounts_compared": lpost.len(), "cpis": lo.cpis.len(), "events": evs(&lo).len(), "result": "byte-identical"}));
 }
 
+/// by-token-amounts has no Anchor twin: compare it with the Anchor increase_liquidity_v2 for the liquidity it derived
+fn compare_by_token_amounts(pre: &Ledger, post: &Ledger, ix: &Ix, idx: usize, cov: &mut Coverage, out: &mut Vec<Violation>) {
+    let Some(c) = wpix::decode(ix) else { return };
+    let (Some(p0), Some(p1)) = (pre.data(&c.a("position")).and_then(decode::position), post.data(&c.a("position")).and_then(decode::position)) else { return };
+    let liq = p1.liquidity.wrapping_sub(p0.liquidity);
+    let mut r = c.args();
+    let _ = r.u8();
+    let (max_a, max_b) = (r.u64(), r.u64());
+    let mut twin_ix = ix.clone();
+    let mut d = wpix::ix_disc("increase_liquidity_v2").to_vec();
+    d.extend_from_slice(&liq.to_le_bytes());
+    d.extend_from_slice(&max_a.to_le_bytes());
+    d.extend_from_slice(&max_b.to_le_bytes());
+    d.push(0);
+    twin_ix.data = d;
+    let (ao, apost) = rt::exec_ix_anchor_twin(pre, &twin_ix, &ExecOpts::default());
+    cov.eval(format!("increase_liquidity_by_token_amounts_v2|twin={}", if ao.ok() { "ok".to_string() } else { format!("{:#x}", ao.code.min(0xffff_ffff)) }));
+    if !ao.ok() {
+        out.push(viol("success_mismatch", idx, format!("by-token-amounts derived liquidity {} and succeeded, but the Anchor increase_liquidity_v2 for that liquidity and the same maxima fails with {:#x}", liq, ao.code)));
+        return;
+    }
+    let mut seen: Vec<solana_program::pubkey::Pubkey> = Vec::new();
+    for m in &ix.accounts {
+        if seen.contains(&m.pubkey) {
+            continue;
+        }
+        seen.push(m.pubkey);
+        let live = post.get(&m.pubkey);
+        let twin = apost.iter().find(|a| a.key == m.pubkey);
+        if let (Some(l), Some(t)) = (live, twin) {
+            if l.lamports != t.lamports || l.data[..] != t.data[..] {
+                let pos = ix.accounts.iter().position(|x| x.pubkey == m.pubkey).unwrap_or(0);
+                out.push(viol("account_bytes_differ", idx, format!("by-token-amounts vs Anchor increase_liquidity_v2(L={}): account `{}` differs", liq, c.info.accounts.get(pos).cloned().unwrap_or("?"))));
+                return;
+            }
+        }
+    }
+    cov.probe("by_token_amounts_equals_anchor_increase");
+}
+
 impl Monitor for C12 {
     fn name(&self) -> &'static str {
         "C12"
@@ -135,6 +175,8 @@ impl Monitor for C12 {
             for v in ev.ix_views() {
                 if rt::has_anchor_twin(v.ix) {
                     compare(v.pre, v.ix, None, ev.idx, cov, &mut out);
+                } else if wpix::decode(v.ix).map(|c| c.name() == "increase_liquidity_by_token_amounts_v2").unwrap_or(false) {
+                    compare_by_token_amounts(v.pre, v.post, v.ix, ev.idx, cov, &mut out);
                 }
             }
         } else if ev.tx.ixs.len() == 1 && rt::has_anchor_twin(&ev.tx.ixs[0]) {
